@@ -112,3 +112,23 @@ fn d6_seed_roundtrip_1024() {
     let sk2 = SecretKey::<1024>::from_bytes(&bytes).unwrap();
     assert!(sk == sk2);
 }
+
+// ---- known findings (not fixed): these tests FAIL on the current tree and document the input
+#[test]
+fn k1_sampler_z_large_centre() {
+    use rand::SeedableRng;
+    let mut rng = rand::rngs::StdRng::from_seed([1u8; 32]);
+    for _ in 0..50 {
+        // |mu| >= 2^15 - 19: `z + (s as i16)` overflows
+        let _ = crate::samplerz::sampler_z(40000.0, 1.5, 1.2778336969128337, &mut rng);
+    }
+}
+
+#[test]
+fn k2_ber_exp_seven_byte_tie() {
+    // the 7 random bytes equal the top 7 bytes of z: the 8th loop round indexes random_bytes[7]
+    let (x, ccs) = (0.3f64, 0.75f64);
+    let z = crate::samplerz::repro_z(x, ccs);
+    let b = z.to_be_bytes();
+    let _ = crate::samplerz::repro_ber_exp(x, ccs, [b[0], b[1], b[2], b[3], b[4], b[5], b[6]]);
+}
